@@ -98,7 +98,7 @@ typedef struct {
   int hot;  // the fiber has been made runnable or is running: nobody else may touch its stack any more
   int id;
 } fstack_t;
-#define MAXFSTACK 256
+#define MAXFSTACK 1024
 extern fstack_t fmc_fstacks[MAXFSTACK];
 extern int fmc_nfstacks;
 extern void* fmc_cur_ctx[MAXT];  // context currently executing on each kernel thread
